@@ -87,6 +87,7 @@ func refRecvBody(sc Scn, src, view fsmodel.Tree, srcDir string, res *RefRecvRes)
 	}
 	return func(t *testing.T, s *Stepper, x *Exec) {
 		link := netsim.NewLink(sc.Cap)
+		link.PostYield = sc.PostYield
 		sctx, scancel := context.WithCancel(context.Background())
 		defer scancel()
 		sEnd := link.End("S", sctx)
@@ -134,6 +135,9 @@ func refRecvBody(sc Scn, src, view fsmodel.Tree, srcDir string, res *RefRecvRes)
 		mfs := memfs.New(src)
 		// readers that hand out their last bytes together with io.EOF (archive/tar, many network readers)
 		mfs.EOFWithData = sc.Variant == "eofdata"
+		if sc.Variant == "shortreads" {
+			mfs.MaxRead = 5000 // a reader that hands a 32 KiB buffer back partly filled, every time
+		}
 		if sc.Fault.Kind == "read" {
 			// reading the K-th regular file of the source fails after J bytes
 			files := []string{}
@@ -550,6 +554,7 @@ func driveC06(p *Pool, r *evid.Run) {
 		for _, pol := range []string{"run", "recv"} {
 			for _, cp := range caps {
 				v2 = append(v2, Scn{Kind: "refrecv", Src: "v2", Cap: cp, Policy: pol, Script: o, Variant: "eofdata", SelectAlts: true})
+				v2 = append(v2, Scn{Kind: "refrecv", Src: "v2", Cap: cp, Policy: pol, Script: o, Variant: "shortreads", SelectAlts: true})
 			}
 		}
 	}
@@ -577,6 +582,10 @@ func driveC06(p *Pool, r *evid.Run) {
 				}
 			}
 			slow = append(slow, Scn{Kind: "refrecv", Src: "v2", Cap: 1, Policy: "slow:" + role, Script: []int{0, 1, 2, 3, 4}, SelectAlts: true, Progress: true})
+			// ... and with stream sends that return late (the answer may be there before the statement after the send)
+			for _, scr := range [][]int{{0, 2, 3}, {}} {
+				slow = append(slow, Scn{Kind: "refrecv", Src: "v1", Cap: 64, Policy: "slow:" + role, Script: scr, SelectAlts: true, Progress: true, PostYield: true})
+			}
 		}
 		exploreAll(p, r, "C06", slow, 1, 0)
 		r.Add("scenarios", int64(len(slow)))
